@@ -392,6 +392,9 @@ func (w *World) Run(ex *Exchange) {
 		ex.Panic = "HARNESS: " + err.Error()
 		return
 	}
+	if req.Header != nil {
+		req.Header.Set(TagHeader, w.Origin.Tag(ex))
+	}
 	ctx := WithExchange(context.Background(), ex)
 	var cancel context.CancelFunc = func() {}
 	if spec.Deadline > 0 {
